@@ -106,8 +106,8 @@ def do_record(stg, cfg, stem, rvb=None, src=None, header_dict=None, load_templat
     bd = Boundary(src)
     args = dict(num_blocks=cfg['nblocks'], length_mode='num_blocks', digitize=cfg['digitize'],
                 load_template=load_template, verbose=False)
-    if header_dict is not None:
-        args['header_dict'] = header_dict
+    # always an explicit fresh dictionary: the shared default argument of record() is C12's business
+    args['header_dict'] = header_dict if header_dict is not None else {}
     args.update(kw)
     try:
         with common.quiet():
